@@ -312,10 +312,15 @@ func main() {
 	r.Assume = []string{"the libp2p host, peer store, peer-info manager and queue client are in-memory fakes behind the package's own interfaces; stream codecs (protocol.Read/WriteStream) are the real ones", "distinct peer latencies fix the initial sort order", "virtual time for the 400 ms back-off"}
 	r.StateCounter = "tree_nodes"
 	r.DistinctSet = "outcomes"
-	type shape struct{ P, H, bound int }
-	shapes := []shape{{2, 2, 2}, {3, 1, 2}}
+	type shape struct {
+		P, H, bound int
+		set         []int // behaviours enumerated for this shape (nil = the tier's full set)
+	}
+	// the last quick shape: three peers and two heights (the per-height goroutines then hold different
+	// views of the shared peer list) over the three behaviours that shape the list: serve, refuse, too low
+	shapes := []shape{{2, 2, 2, nil}, {3, 1, 2, nil}, {3, 2, 2, []int{bServe, bRefuse, bUnavail}}}
 	if !r.Quick() {
-		shapes = []shape{{2, 2, 3}, {3, 1, 3}, {3, 2, 2}, {2, 3, 2}}
+		shapes = []shape{{2, 2, 3, nil}, {3, 1, 3, nil}, {3, 2, 2, nil}, {2, 3, 2, nil}, {4, 2, 2, []int{bServe, bRefuse, bUnavail}}}
 	}
 	behavSet := []int{bServe, bRefuse, bMalformed, bWrongHeight, bUnavail}
 	if !r.Quick() {
@@ -399,7 +404,7 @@ func main() {
 			}
 			a = append(a, row)
 		}
-		q := mk(shape{P, H, 9}, a, c.Harness)
+		q := mk(shape{P, H, 9, nil}, a, c.Harness)
 		w, res := q.ReplaySched(c.Choices)
 		for _, l := range res.Trace {
 			fmt.Println("  ", l)
@@ -419,7 +424,12 @@ func main() {
 	}
 	sh0, nsh := r.Shard()
 	idx := 0
+	tierSet := behavSet
 	for _, sh := range shapes {
+		behavSet := tierSet
+		if sh.set != nil {
+			behavSet = sh.set
+		}
 		n := sh.P * sh.H
 		total := 1
 		for i := 0; i < n; i++ {
